@@ -183,7 +183,8 @@ class Model:
         import dataclasses
         ns = self.ns
         ns.update({'_RT': self, 'OrderedDict': collections.OrderedDict,
-                   'Optional': typing.Optional, 'enum': enum, 'abc': abc,
+                   'Optional': typing.Optional, 'Any': typing.Any,
+                   'enum': enum, 'abc': abc,
                    'UserString': collections.UserString, 'yatiml': yatiml,
                    'dataclasses': dataclasses, '_copy': __import__(
                        'copy').deepcopy})
@@ -325,7 +326,23 @@ class Model:
                 sig.append('_yatiml_extra: Optional[OrderedDict] = None')
             else:
                 sig.append('_yatiml_extra: OrderedDict')
+        if c.get('kwonly'):
+            # keyword-only parameters: no attributes as far as yatiml is
+            # concerned (never passed, never dumped)
+            sig.append('*')
+            for kn in c['kwonly']:
+                sig.append('%s: Any = None' % kn)
         L.append('    def __init__(%s) -> None:' % ', '.join(sig))
+        if c.get('copy_args'):
+            # a constructor that copies the containers it is handed: they
+            # have to be complete when it is called
+            for p in params:
+                if isinstance(p['type'], list) and p['type'][0] in (
+                        'list', 'seq', 'mseq', 'dict', 'map', 'mmap'):
+                    L.append('        if isinstance(%s, (list, dict)):'
+                             % p['name'])
+                    L.append('            %s = %s.copy()' % (p['name'],
+                                                             p['name']))
         # _yatiml_defaults (own or inherited): the constructor turns None
         # into that value, the documented use of the feature
         if any(x.get('defaults_override') for x in self.spec['classes']):
@@ -434,7 +451,11 @@ class Model:
         c = self.cspecs[name]
         out = collections.OrderedDict()
         for p in c.get('params', []):
-            out[p['name']] = getattr(obj, '_p_' + p['name'])
+            val = getattr(obj, '_p_' + p['name'])
+            if c.get('attributes_hook') == 'nondefault' and 'default' in p \
+                    and plain.same(val, self._default_value(c, p)):
+                continue        # only what differs from the defaults
+            out[p['name']] = val
         if c.get('extra'):
             out.update(getattr(obj, '_p__yatiml_extra'))
         return out
